@@ -56,7 +56,7 @@ pub struct Exchange {
 fn safe_path() -> BoxedStrategy<String> {
     let ch = prop_oneof![10 => (b'a'..=b'z').prop_map(|c| (c as char).to_string()), 2 => (b'A'..=b'Z').prop_map(|c| (c as char).to_string()), 3 => (b'0'..=b'9').prop_map(|c| (c as char).to_string()),
         2 => proptest::sample::select(vec!["-", "_", ".", "~", ";", "=", "@", ":", "+", ","]).prop_map(|s| s.to_string()), 1 => (0x21u8..0x7f).prop_map(|b| format!("%{b:02X}"))];
-    let seg = proptest::collection::vec(ch, 1..8).prop_map(|v| v.concat()).prop_filter("no dot segments", |s| s != "." && s != "..");
+    let seg = proptest::collection::vec(ch, 1..8).prop_map(|v| v.concat()).prop_map(|s| if s == "." || s == ".." { "dot".to_string() } else { s });
     prop_oneof![1 => Just(String::new()), 1 => Just("/".to_string()), 2 => Just("/ipp/print".to_string()), 5 => proptest::collection::vec(seg, 1..4).prop_map(|v| format!("/{}", v.join("/")))].boxed()
 }
 
